@@ -110,10 +110,22 @@ func discharge(obls []*Obligation, dir string, timeoutS int, workers int, confir
 	os.MkdirAll(dir, 0o755)
 	var wg sync.WaitGroup
 	sem := make(chan struct{}, workers)
+	// query texts are generated sequentially (the generator mutates the declaration tables)
 	for i, o := range obls {
-		i, o := i, o
+		if o.precomputed {
+			continue
+		}
 		if !o.Cover && o.Goal == "true" {
 			o.Status, o.Solver = "unsat", "trivial"
+			continue
+		}
+		file := filepath.Join(dir, fmt.Sprintf("o%04d.smt2", i))
+		os.WriteFile(file, []byte(o.smtText()), 0o644)
+		o.File = file
+	}
+	for _, o := range obls {
+		o := o
+		if o.precomputed || o.Solver == "trivial" || o.File == "" {
 			continue
 		}
 		wg.Add(1)
@@ -121,10 +133,7 @@ func discharge(obls []*Obligation, dir string, timeoutS int, workers int, confir
 		go func() {
 			defer wg.Done()
 			defer func() { <-sem }()
-			file := filepath.Join(dir, fmt.Sprintf("o%04d.smt2", i))
-			text := o.smtText()
-			os.WriteFile(file, []byte(text), 0o644)
-			o.File = file
+			file := o.File
 			res := runSolvers(file, timeoutS, solvers)
 			o.Status, o.Solver, o.Seconds = res.status, res.solver, res.seconds
 			if res.status == "sat" {
